@@ -63,6 +63,7 @@ type vfE7Stub struct {
 	hasTopic  atomic.Bool
 	mu        sync.Mutex
 	producers []string // symbols (lookupd stubs)
+	reports   string   // nsqd stubs: the symbol whose address /info claims as broadcast_address:http_port ("" = its own)
 	cl        *vfE7Cluster
 }
 
@@ -148,7 +149,13 @@ func (st *vfE7Stub) ServeHTTP(w http.ResponseWriter, r *http.Request) {
 		st.mu.Unlock()
 		reply(map[string]interface{}{"producers": ps})
 	case "/info":
-		host, port, _ := net.SplitHostPort(st.addr)
+		st.mu.Lock()
+		claimed := st.addr
+		if a, ok := st.cl.bySym[st.reports]; ok && st.reports != "" {
+			claimed = a
+		}
+		st.mu.Unlock()
+		host, port, _ := net.SplitHostPort(claimed)
 		p, _ := strconv.Atoi(port)
 		reply(map[string]interface{}{"version": "1.3.0", "broadcast_address": host, "hostname": st.sym,
 			"http_port": p, "tcp_port": p + 10000})
@@ -264,6 +271,7 @@ type vfE7World struct {
 	noTopic  map[string]bool     // nsqd symbols whose /stats has no topic
 	prods    map[string][]string // lookupd symbol → producer symbols
 	postFail map[string]int      // symbols that answer GETs but fail every POST: 404 (1) or 500 (2)
+	reports  map[string]string   // nsqd symbol → symbol whose address its /info claims (absent = its own)
 }
 
 func (c *vfE7Cluster) apply(w vfE7World) {
@@ -273,6 +281,7 @@ func (c *vfE7Cluster) apply(w vfE7World) {
 		st.hasTopic.Store(!w.noTopic[sym])
 		st.mu.Lock()
 		st.producers = w.prods[sym]
+		st.reports = w.reports[sym]
 		st.mu.Unlock()
 	}
 }
@@ -303,7 +312,11 @@ func (c *vfE7Cluster) worldFields(w vfE7World) string {
 	}
 	sort.Strings(all)
 	for _, n := range all {
-		nd = append(nd, fmt.Sprintf("%s:%s:%s:%s", n, b(!w.down[n]), b(!w.noTopic[n]), b(!w.down[n] && w.postFail[n] == 0)))
+		rep := n
+		if r, ok := w.reports[n]; ok && r != "" {
+			rep = r
+		}
+		nd = append(nd, fmt.Sprintf("%s:%s:%s:%s:%s", n, b(!w.down[n]), b(!w.noTopic[n]), b(!w.down[n] && w.postFail[n] == 0), rep))
 	}
 	j := func(xs []string) string {
 		if len(xs) == 0 {
@@ -422,6 +435,7 @@ func (e *vfE7Env) run(c vfE7Case) (status int, reqs []string) {
 		rd = strings.NewReader(c.body)
 	}
 	var received http.Header
+	pageFlag := ""
 	if c.direct {
 		req := httptest.NewRequest(c.method, path, rd)
 		req.RemoteAddr = c.remote
@@ -445,18 +459,27 @@ func (e *vfE7Env) run(c vfE7Case) (status int, reqs []string) {
 		if err != nil {
 			e.t.Fatalf("request %s %s: %v", c.method, path, err)
 		}
+		page, _ := io.ReadAll(io.LimitReader(resp.Body, 1<<20))
 		io.Copy(io.Discard, resp.Body)
 		resp.Body.Close()
 		status = resp.StatusCode
 		received = e.gotHdr
+		// the index page tells the browser whether to show the admin controls: `var IS_ADMIN = {{.IsAdmin}};`
+		if c.method == "GET" && status == 200 && strings.HasPrefix(resp.Header.Get("Content-Type"), "text/html") {
+			if i := strings.Index(string(page), "var IS_ADMIN = "); i >= 0 {
+				rest := string(page)[i+len("var IS_ADMIN = "):]
+				if j := strings.Index(rest, ";"); j >= 0 {
+					pageFlag = "isadmin=" + strings.TrimSpace(rest[:j])
+				}
+			}
+		}
 	}
 	reqs = e.cl.log.take()
 	// notifications: the handler starts `go func() { notifications <- a }()` before it answers
 	var notes []string
 	if c.notify || c.method != "GET" {
 		// the goroutines exist before the handler returns: count them in a stack dump (no sleeping)
-		buf := make([]byte, 1<<20)
-		k := strings.Count(string(buf[:runtime.Stack(buf, true)]), "notifyAdminAction.func")
+		k := vfE7PendingNotifies(e.t)
 		for i := 0; i < k; i++ {
 			select {
 			case a := <-e.n.notifications:
@@ -573,6 +596,10 @@ func (e *vfE7Env) run(c vfE7Case) (status int, reqs []string) {
 	if c.query != "" {
 		op += " xq=" + vfE7Hex(c.query)
 	}
+	if c.method != "GET" && !isConfig && len(c.body) <= 512 {
+		// the literal request body, for the oracle's own reading of "well-formed request" (ignored by the model)
+		op += " xbody=" + vfE7Hex(c.body)
+	}
 	if isConfig {
 		// the literal inputs of the CIDR gate, for the independent check of the `innet` fact (ignored by the model)
 		op += fmt.Sprintf(" xcidr=%s xremote=%s", vfE7Hex(c.cidr), vfE7Hex(c.remoteOr()))
@@ -581,6 +608,19 @@ func (e *vfE7Env) run(c vfE7Case) (status int, reqs []string) {
 	if c.method == "GET" && !isConfig {
 		if len(reqs) > 0 {
 			rs = "*"
+		}
+		// a read-only route must send nothing but GETs: any other upstream request is shown in full
+		var posts []string
+		for _, r := range reqs {
+			if !strings.HasPrefix(r, "G:") {
+				posts = append(posts, r)
+			}
+		}
+		if len(posts) > 0 {
+			rs = "*|" + strings.Join(posts, "|")
+		}
+		if pageFlag != "" && rs == "-" {
+			rs = pageFlag
 		}
 	} else if len(reqs) > 0 {
 		rs = strings.Join(reqs, "|")
@@ -592,6 +632,41 @@ func (e *vfE7Env) run(c vfE7Case) (status int, reqs []string) {
 	e.out.Case(op, fmt.Sprintf("%d %s %s %s", status, rs, ns, cfgw))
 	e.hist[fmt.Sprintf("%s:%d", c.method, status)]++
 	return status, reqs
+}
+
+// vfE7PendingNotifies: the number of `go func() { notifications <- a }()` goroutines that wait to hand over their
+// action. A goroutine that has just handed over the action of the previous case, or that has not reached its
+// send yet, is neither: wait until every such goroutine is parked in its send (no verdict depends on the wait).
+func vfE7PendingNotifies(t *testing.T) int {
+	buf := make([]byte, 4<<20)
+	for i := 0; ; i++ {
+		dump := string(buf[:runtime.Stack(buf, true)])
+		blocked, other := 0, 0
+		for _, g := range strings.Split(dump, "\n\n") {
+			if !strings.Contains(g, "notifyAdminAction.func") {
+				continue
+			}
+			head := g
+			if j := strings.Index(g, "\n"); j >= 0 {
+				head = g[:j]
+			}
+			if strings.Contains(head, "[chan send") {
+				blocked++
+			} else {
+				other++
+			}
+		}
+		if other == 0 {
+			return blocked
+		}
+		if i > 200000 {
+			t.Fatalf("notification goroutines never settle:\n%s", dump)
+		}
+		runtime.Gosched()
+		if i > 100 {
+			time.Sleep(50 * time.Microsecond)
+		}
+	}
 }
 
 // vfE7NotifyContent: direct oracle on the content of one notification — it names the topic / channel / node the
@@ -638,7 +713,9 @@ func vfE7NotifyContent(e *vfE7Env, c vfE7Case, path string, a *AdminAction) stri
 	if a.User != wantUser {
 		return fmt.Sprintf("notification carries user %q, the request's basic-auth user is %q", a.User, wantUser)
 	}
-	if u, err := url.Parse(a.URL); err != nil || u.EscapedPath() != strings.SplitN(path, "?", 2)[0] && u.Path != strings.SplitN(path, "?", 2)[0] {
+	// the same path, whichever of the equivalent escapings the two sides chose
+	wantPath, _ := url.PathUnescape(strings.SplitN(path, "?", 2)[0])
+	if u, err := url.Parse(a.URL); err != nil || u.EscapedPath() != strings.SplitN(path, "?", 2)[0] && u.Path != wantPath {
 		return fmt.Sprintf("notification URL %q is not the request path %q", a.URL, path)
 	}
 	return ""
@@ -841,6 +918,60 @@ func TestVerifE7Identity(t *testing.T) {
 			}
 		}
 	}
+	// route x method product (audit C34): every registered path under every method, registered or not, from an admin
+	// and from somebody else; and every mutating route x identity in direct-nsqd mode
+	direct3 := vfE7World{nsqds: []string{"N0", "N1", "N2"}}
+	seenPath := map[string]bool{}
+	for _, r := range routes {
+		if strings.HasPrefix(r[2], "expr:") || seenPath[r[1]] {
+			continue
+		}
+		seenPath[r[1]] = true
+		for _, m := range []string{"GET", "POST", "PUT", "DELETE", "PATCH", "HEAD", "OPTIONS"} {
+			for _, who := range []string{"mallory", "alice"} {
+				variant++
+				segs := vfE7Instantiate(r[1], "t1", "c1", "N0", "base.css", "log_level")
+				w := vfE7AllUp
+				if variant%3 == 0 {
+					w = direct3
+				}
+				e.run(vfE7Case{method: m, segs: segs, users: []string{"alice"}, acl: "X-Forwarded-User",
+					sendHdrs: [][2]string{{"X-Forwarded-User", who}}, cidr: "127.0.0.1/8", body: vfE7BodyFor(m, segs, variant), world: w})
+				e.hist["product:"+m]++
+			}
+		}
+	}
+	for _, r := range routes {
+		if r[0] == "GET" || strings.HasPrefix(r[2], "expr:") || strings.HasPrefix(r[1], "/config") {
+			continue
+		}
+		for _, users := range adminLists {
+			for _, id := range idents {
+				variant++
+				segs := vfE7Instantiate(r[1], "t1", "c1", []string{"N0", "N1", "X0"}[rng.Intn(3)], "base.css", "log_level")
+				e.run(vfE7Case{method: r[0], segs: segs, users: users, acl: "X-Forwarded-User", sendHdrs: id.hdrs("X-Forwarded-User"),
+					cidr: "127.0.0.1/8", body: vfE7BodyFor(r[0], segs, variant), world: direct3, notify: variant%2 == 0})
+				e.hist["direct-mode-identity"]++
+			}
+		}
+	}
+	// ACL header names that are not RFC 7230 tokens (a space, a non-ASCII letter): CanonicalMIMEHeaderKey leaves them
+	// alone, so only a map key spelled exactly like the option matches (audit C17). Off the wire only.
+	for _, r := range routes {
+		if r[0] == "GET" || strings.HasPrefix(r[2], "expr:") || strings.HasPrefix(r[1], "/config") {
+			continue
+		}
+		for _, acl := range []string{"x user", "x-üser", "X-Üser", ""} {
+			for _, key := range []string{"x user", "X user", "X User", "x-üser", "X-üser", "X-Üser", "", "X-Forwarded-User"} {
+				variant++
+				segs := vfE7Instantiate(r[1], "t1", "c1", "N0", "base.css", "log_level")
+				e.run(vfE7Case{method: r[0], segs: segs, users: []string{"alice"}, acl: acl, sendHdrs: [][2]string{{key, "alice"}},
+					direct: true, remote: "127.0.0.1:4000", cidr: "127.0.0.1/8", body: vfE7BodyFor(r[0], segs, variant),
+					world: vfE7AllUp})
+				e.hist["nontoken-acl"]++
+			}
+		}
+	}
 	fmt.Printf("E7-IDENTITY cases=%d hist=%v\n", e.out.n, e.hist)
 }
 
@@ -873,9 +1004,14 @@ func TestVerifE7Fanout(t *testing.T) {
 		{nsqds: []string{"N0", "N1", "N2"}, noTopic: map[string]bool{"N0": true, "N2": true}},
 		{nsqds: []string{"N0", "N1"}, down: map[string]bool{"N0": true, "N1": true}},
 		{nsqds: []string{"N2"}, noTopic: map[string]bool{"N2": true}},
+		// an nsqd whose /info claims somebody else's address (audit C16): the commands go *there*
+		{lookupds: []string{"L0", "L1"}, prods: prods, reports: map[string]string{"N0": "N1"}},
+		{lookupds: []string{"L0"}, prods: prods, reports: map[string]string{"N0": "X0", "N1": "N0"}},
+		{nsqds: []string{"N0", "N1", "N2"}, reports: map[string]string{"N0": "N2"}},
+		{nsqds: []string{"N0", "N1"}, reports: map[string]string{"N0": "X0", "N1": "N2"}, postFail: map[string]int{"N2": 2}},
 	}
-	topics := []string{"t1", "orders.v2", "a_b-c", "t#ephemeral"}
-	chans := []string{"c1", "c#ephemeral", "x.y"}
+	topics := []string{"t1", "orders.v2", "a_b-c", "t#ephemeral", "a&channel=b c%+d", "ü~!*'();:@=$,?#[]"}
+	chans := []string{"c1", "c#ephemeral", "x.y", "c&topic=other"}
 	bodies := func(method string, segs []string) []string {
 		if method == "DELETE" {
 			if len(segs) == 3 && segs[1] == "nodes" {
